@@ -245,6 +245,33 @@ def run(ctx, idx):
     ctx.rule("C11.d", "Threading: from_source passes the node's line into every Argument/ListArgument and add_command; add_command passes it to the command; Command.__init__ keeps it and builds argument_lines from the arguments' lines; every call of clean passes a line-carrying expression.")
     ctx.rule("C11.e", "Every raise of a ProgramError subclass in program.py, commands.py, params.py and utils.convert_eems2_commands binds the constructor's lineno parameter to a line-carrying expression of the offending object.")
     ctx.rule("C11.f", "The CLI marks lines[ex.lineno - 1] and `lines` is the same split that was joined into the source handed to from_source.")
+    ctx.rule("C11.h", "An error's line is fixed where the error is raised: no handler stores a `lineno` on an exception it has caught, except Command.run filling in its own command's line (the command whose evaluation failed). A caller further out (Program.run, the CLI) only knows the command it started, not the one that failed inside it, so a line patched in there is a wrong line.")
+    n_handlers = 0
+    A_ = K.anchors(idx)
+    for mod_, fi_, n_ in K.scoped_nodes(idx):
+        if not isinstance(n_, ast.ExceptHandler):
+            continue
+        n_handlers += 1
+        if not n_.name:
+            continue
+        for x_ in [y for st in n_.body for y in ast.walk(st)]:
+            tgt = None
+            if isinstance(x_, ast.Attribute) and isinstance(x_.ctx, ast.Store) and x_.attr == "lineno" and isinstance(x_.value, ast.Name) and x_.value.id == n_.name:
+                tgt = x_
+            if isinstance(x_, ast.Call) and isinstance(x_.func, ast.Name) and x_.func.id == "setattr" and len(x_.args) == 3 and isinstance(x_.args[0], ast.Name) and x_.args[0].id == n_.name \
+                    and isinstance(x_.args[1], ast.Constant) and x_.args[1].value == "lineno":
+                tgt = x_
+            if tgt is None:
+                continue
+            top_ = fi_
+            while top_ is not None and getattr(top_, "parent", None) is not None:
+                top_ = top_.parent
+            own = top_ is A_.run and fi_ is A_.run
+            con_ = "%s::line-patched-onto-caught-error" % K.where(mod_, fi_)
+            ctx.ob("C11.h", con_, mod_.rel, tgt.lineno, own,
+                   "Command.run fills in the line of the command whose evaluation failed" if own else
+                   "`%s` stores a line on an error caught in %s: the error may come from any command evaluated underneath (a dependency pulled through .result), so it gets the line of a command that did not fail and the command-line tool marks that line" % (K.src(tgt)[:60], fi_.qualname if fi_ is not None else "module code"))
+    ctx.floor("C11.h", "exception handlers examined", n_handlers, 8)
     del _IDX[:]
     _IDX.append(idx)
     L = grammar.Lexicon(idx)
